@@ -100,7 +100,11 @@ def run_path(mod, params, prefix, opts):
     """Execute one path symbolically.  Returns a summary dict (picklable)."""
     try:
         signal.signal(signal.SIGALRM, _alarm)
-        signal.alarm(int(opts.get('path_wall_s', 60) * 3 + 30))
+        _w = opts.get('path_wall_s', 60) * 3 + 30
+        if opts.get('hard_deadline'):
+            # the configuration's wall budget bounds every path started under it (plus a grace period)
+            _w = min(_w, max(20, opts['hard_deadline'] - time.time() + 30))
+        signal.alarm(int(_w))
     except ValueError:
         pass
     try:
@@ -120,6 +124,8 @@ def run_path(mod, params, prefix, opts):
 def _run_path(mod, params, prefix, opts):
     c = Ctx(prefix, timeout_ms=opts['timeout_ms'], max_decisions=opts.get('max_decisions', 4000))
     c.deadline = time.time() + opts.get('path_wall_s', 60)
+    if opts.get('hard_deadline'):
+        c.deadline = min(c.deadline, max(time.time() + 10, opts['hard_deadline'] + 10))
     if opts.get('second_solver_every'):
         c.options['second_solver_every'] = opts['second_solver_every']
     core.set_ctx(c)
@@ -303,6 +309,7 @@ def explore(modname, params, opts, nproc, budget_s, log=None, ex=None):
     agg = Agg()
     t0 = time.time()
     queue = [[]]
+    opts = dict(opts, hard_deadline=t0 + budget_s)
     ctx_mp = multiprocessing.get_context('fork')
     inflight = set()
     own = ex is None
